@@ -50,7 +50,8 @@ impl Scenario for C17 {
                 let op = match b.rng.below(if bk == Bk::V1 { 44 } else { 34 }) {
                     0..=3 => TOp::Encrypt { len: b.rng.usize_below(100) },
                     4 | 5 => TOp::Sign { len: b.rng.usize_below(100) },
-                    6 | 7 => TOp::DecryptOwn,
+                    6 => TOp::DecryptOwn,
+                    7 => if b.rng.bool() { TOp::DecryptOwn } else { TOp::RefreshOwn },
                     8 => TOp::VerifyOwn,
                     9 => TOp::DecryptBad { byte },
                     10 => TOp::VerifyBad { byte },
